@@ -36,9 +36,10 @@ structure GroupSpec (G : Group) where
   order_smul : ∀ a, Valid a → (q : ℤ) • abs a = 0
   enc_len : ∀ a, Valid a → (G.enc a).length = G.elemSize ∧ IsBytes (G.enc a)
   enc_inj : ∀ a b, Valid a → Valid b → (G.enc a = G.enc b ↔ abs a = abs b)
-  /-- strict decoding: an accepted string is the encoding of the (valid) element returned -/
-  dec_strict : ∀ b e, G.dec b = .ok e → Valid e ∧ G.enc e = b
-  dec_nonzero : rejectsIdentity = true → ∀ b e, G.dec b = .ok e → abs e ≠ 0
+  /-- strict decoding: an accepted *byte* string (`Bytes = List Nat` also contains lists with entries ≥ 256,
+  which no Python `bytes` object can be) is the encoding of the (valid) element returned -/
+  dec_strict : ∀ b e, IsBytes b → G.dec b = .ok e → Valid e ∧ G.enc e = b
+  dec_nonzero : rejectsIdentity = true → ∀ b e, IsBytes b → G.dec b = .ok e → abs e ≠ 0
   /-- completeness of decoding on valid (acceptable) elements -/
   dec_enc : ∀ a, Valid a → (rejectsIdentity = true → abs a ≠ 0) →
     ∃ e, G.dec (G.enc a) = .ok e ∧ abs e = abs a
